@@ -4,7 +4,10 @@ package didstoredrv
 
 import (
 	"crypto/ecdsa"
+	"crypto/ed25519"
 	"crypto/elliptic"
+	"crypto/rand"
+	"crypto/rsa"
 	"crypto/sha256"
 	"encoding/base64"
 	"encoding/hex"
@@ -13,6 +16,7 @@ import (
 	"math/big"
 	"sort"
 	"strings"
+	"sync"
 	"time"
 
 	"github.com/nuts-foundation/go-did/did"
@@ -61,6 +65,11 @@ type tables struct {
 	Scen  map[string]scen   `json:"Scen"`
 	Thumb map[string]string `json:"Thumb"`
 	Rank  map[string]int    `json:"Rank"`
+	// KeyUse: relationship under which a key that is listed but NOT authorised for capability invocation appears
+	// ("" = verificationMethod only; no entry = assertionMethod)
+	KeyUse  map[string]string `json:"KeyUse"`
+	Defects []string          `json:"Defects"`
+	VMKinds []string          `json:"VMKinds"`
 }
 
 var t0 = time.Date(2026, 1, 1, 0, 0, 0, 0, time.UTC)
@@ -85,15 +94,31 @@ func detKey(seed string) txforge.Key {
 // jwkThumbprint is RFC 7638 for an EC public JWK given as a generic map (own implementation: the reference
 // oracle must not depend on the code under test).
 func jwkThumbprint(j map[string]any) ([]byte, bool) {
-	crv, ok1 := j["crv"].(string)
-	kty, ok2 := j["kty"].(string)
-	x, ok3 := j["x"].(string)
-	y, ok4 := j["y"].(string)
-	if !(ok1 && ok2 && ok3 && ok4) || kty != "EC" {
+	kty, _ := j["kty"].(string)
+	var members []string
+	switch kty {
+	case "EC":
+		members = []string{"crv", "kty", "x", "y"}
+	case "OKP":
+		members = []string{"crv", "kty", "x"}
+	case "RSA":
+		members = []string{"e", "kty", "n"}
+	default:
 		return nil, false
 	}
 	enc := func(s string) string { b, _ := json.Marshal(s); return string(b) }
-	canon := `{"crv":` + enc(crv) + `,"kty":` + enc(kty) + `,"x":` + enc(x) + `,"y":` + enc(y) + `}`
+	canon := "{"
+	for i, m := range members { // required members in lexicographic order
+		v, ok := j[m].(string)
+		if !ok {
+			return nil, false
+		}
+		if i > 0 {
+			canon += ","
+		}
+		canon += enc(m) + ":" + enc(v)
+	}
+	canon += "}"
 	h := sha256.Sum256([]byte(canon))
 	return h[:], true
 }
@@ -205,15 +230,30 @@ func (w *world) docObj(a adoc) map[string]any {
 	}
 	keys := append([]string{}, a.Keys...)
 	sort.Strings(keys)
-	var vms, am []any
+	inCI := map[string]bool{}
+	for _, k := range a.CapInv {
+		inCI[k] = true
+	}
+	var vms []any
+	rels := map[string][]any{}
 	for _, k := range keys {
 		vm := w.vmObj(didStr, k)
 		vms = append(vms, vm)
-		am = append(am, vm["id"])
+		// a key authorised for capability invocation is also an assertion key (as a Nuts node publishes it); a key that is
+		// merely listed appears under the relationship the model names for it, or under none at all
+		use, named := w.tb.KeyUse[k]
+		if inCI[k] || !named {
+			use = "assertionMethod"
+		}
+		if use != "" {
+			rels[use] = append(rels[use], vm["id"])
+		}
 	}
 	if len(vms) > 0 {
 		o["verificationMethod"] = vms
-		o["assertionMethod"] = am
+	}
+	for r, l := range rels {
+		o[r] = l
 	}
 	ci := append([]string{}, a.CapInv...)
 	sort.Strings(ci)
@@ -443,6 +483,126 @@ func replaceRefs(o map[string]any, old, new string) {
 	}
 }
 
+
+// ---- kinds of verification methods (type x key material) -------------------------------------------------
+
+var keyMaterialMembers = []string{"publicKeyJwk", "publicKeyBase58", "publicKeyMultibase"}
+
+var (
+	edPub   = ed25519.NewKeyFromSeed(func() []byte { h := sha256.Sum256([]byte("verif-didstore-ed25519")); return h[:] }()).Public().(ed25519.PublicKey)
+	rsaOnce sync.Once
+	rsaJWK  map[string]any
+)
+
+func okpJWK(raw []byte) map[string]any {
+	return map[string]any{"kty": "OKP", "crv": "Ed25519", "x": base64.RawURLEncoding.EncodeToString(raw)}
+}
+
+func someRSAJWK() map[string]any {
+	rsaOnce.Do(func() {
+		k, err := rsa.GenerateKey(rand.Reader, 2048)
+		if err != nil {
+			panic(err)
+		}
+		rsaJWK = map[string]any{"kty": "RSA", "n": base64.RawURLEncoding.EncodeToString(k.N.Bytes()),
+			"e": base64.RawURLEncoding.EncodeToString(big.NewInt(int64(k.E)).Bytes())}
+	})
+	return deepCopy(rsaJWK)
+}
+
+// retype turns a JsonWebKey2020/EC method into a method of the given kind; the id stays "DID#thumbprint of the key".
+func retype(vm map[string]any, didStr, kind string) error {
+	typ, material := kind, "jwk"
+	if i := strings.Index(kind, ":"); i >= 0 {
+		typ, material = kind[:i], kind[i+1:]
+	}
+	ec, _ := vm["publicKeyJwk"].(map[string]any)
+	var asJWK map[string]any
+	for _, m := range keyMaterialMembers {
+		delete(vm, m)
+	}
+	switch {
+	case material == "base58":
+		vm["publicKeyBase58"] = base58(edPub)
+		asJWK = okpJWK(edPub)
+	case material == "multibase":
+		vm["publicKeyMultibase"] = "z" + base58(edPub)
+		asJWK = okpJWK(edPub)
+	case material == "okp" || (material == "jwk" && strings.HasPrefix(typ, "Ed25519")):
+		asJWK = okpJWK(edPub)
+		vm["publicKeyJwk"] = okpJWK(edPub)
+	case material == "rsa" || (material == "jwk" && strings.HasPrefix(typ, "Rsa")):
+		asJWK = someRSAJWK()
+		vm["publicKeyJwk"] = deepCopy(asJWK)
+	case material == "jwk":
+		if ec == nil {
+			return fmt.Errorf("method without an EC JWK cannot become %s", kind)
+		}
+		asJWK = ec
+		vm["publicKeyJwk"] = ec
+	default:
+		return fmt.Errorf("unknown kind of verification method %q", kind)
+	}
+	vm["type"] = typ
+	t, ok := jwkThumbprint(asJWK)
+	if !ok {
+		return fmt.Errorf("no thumbprint for kind %s", kind)
+	}
+	vm["id"] = didStr + "#" + base64.RawURLEncoding.EncodeToString(t)
+	return nil
+}
+
+func unbase58(s string) ([]byte, bool) {
+	x := new(big.Int)
+	for _, c := range s {
+		i := strings.IndexRune(b58, c)
+		if i < 0 {
+			return nil, false
+		}
+		x.Mul(x, big.NewInt(58))
+		x.Add(x, big.NewInt(int64(i)))
+	}
+	out := x.Bytes()
+	for _, c := range s {
+		if c != '1' {
+			break
+		}
+		out = append([]byte{0}, out...)
+	}
+	return out, true
+}
+
+// publicKeyAsJWK: the public key of a verification method, whatever representation its type uses, as a JWK
+// (reference reading; nil = no usable key material). More than one representation is not a well-formed method.
+func publicKeyAsJWK(m map[string]any) map[string]any {
+	n := 0
+	for _, k := range keyMaterialMembers {
+		if _, ok := m[k]; ok {
+			n++
+		}
+	}
+	if n != 1 {
+		return nil
+	}
+	if j, ok := m["publicKeyJwk"].(map[string]any); ok {
+		return j
+	}
+	var raw []byte
+	var ok bool
+	if b, is := m["publicKeyBase58"].(string); is {
+		raw, ok = unbase58(b)
+	} else if mb, is := m["publicKeyMultibase"].(string); is && strings.HasPrefix(mb, "z") {
+		raw, ok = unbase58(mb[1:])
+		if ok && len(raw) == 34 && raw[0] == 0xed && raw[1] == 0x01 { // multicodec ed25519-pub
+			raw = raw[2:]
+		}
+	}
+	if !ok || len(raw) != 32 {
+		return nil
+	}
+	return okpJWK(raw)
+}
+
 // defective returns the bytes of the document with exactly one defect of class df.
 func (w *world) defective(cd *cdoc, df string) ([]byte, error) {
 	o := deepCopy(cd.obj)
@@ -466,6 +626,20 @@ func (w *world) defective(cd *cdoc, df string) ([]byte, error) {
 	vms := o["verificationMethod"].([]any)
 	vm0 := vms[0].(map[string]any)
 	id0 := vm0["id"].(string)
+	// "<class>@<kind>": the defect is applied to a verification method of that kind (type x key material) whose id IS
+	// the thumbprint of its key; "ok@<kind>" is the well-formed document with such a method
+	if i := strings.Index(df, "@"); i >= 0 {
+		kind := df[i+1:]
+		df = df[:i]
+		if err := retype(vm0, didStr, kind); err != nil {
+			return nil, err
+		}
+		replaceRefs(o, id0, vm0["id"].(string))
+		id0 = vm0["id"].(string)
+		if df == "ok" {
+			return json.Marshal(o)
+		}
+	}
 	frag0 := id0[strings.Index(id0, "#")+1:]
 	svcs := o["service"].([]any)
 	s0 := svcs[0].(map[string]any)
@@ -499,7 +673,9 @@ func (w *world) defective(cd *cdoc, df string) ([]byte, error) {
 			delete(o, rel)
 		}
 	case "vm-no-key":
-		delete(vm0, "publicKeyJwk")
+		for _, m := range keyMaterialMembers {
+			delete(vm0, m)
+		}
 	case "vm-no-type":
 		delete(vm0, "type")
 	case "vm-no-controller":
@@ -589,9 +765,11 @@ func refWellFormed(payload []byte) (bool, string) {
 		if s, _ := m["controller"].(string); strings.TrimSpace(s) == "" {
 			return false, "verification method without controller"
 		}
-		j, ok := m["publicKeyJwk"].(map[string]any)
-		if !ok {
-			return false, "verification method without key material"
+		// every verification method, whatever its type: the key is named after its RFC 7638 thumbprint; the key is taken from
+		// the representation the type carries (publicKeyJwk: EC / OKP / RSA; publicKeyBase58, publicKeyMultibase: Ed25519)
+		j := publicKeyAsJWK(m)
+		if j == nil {
+			return false, "verification method without (unambiguous) key material"
 		}
 		t, ok := jwkThumbprint(j)
 		if !ok || base64.RawURLEncoding.EncodeToString(t) != vid[len(id)+1:] {
